@@ -18,6 +18,8 @@ from bert_e.job import APIJob, handler
 from bert_e.workflow.git_utils import clone_git_repo, push
 from bert_e.workflow.gitwaterflow.branches import branch_factory
 
+from .rebuild_queues import queue_destination
+
 
 LOG = logging.getLogger(__name__)
 
@@ -49,11 +51,9 @@ def delete_queues(job: DeleteQueuesJob):
     if not queue_branches:
         raise exceptions.JobSuccess()
 
-    queue_branch = queue_branches[0]
-    if queue_branch.minor is None:
-        repo.checkout(f"development/{queue_branch.major}")
-    else:
-        repo.checkout(f"development/{queue_branch.major}.{queue_branch.minor}")
+    # leave the q/* branches before removing them: check out the destination
+    # branch of the first one (a development, stabilization or hotfix branch)
+    queue_destination(repo, queue_branches[0]).checkout()
 
     for branch in queue_branches:
         branch.remove(do_push=False)
